@@ -150,6 +150,11 @@ pub trait Prop: Sync {
     fn case_budget_s(&self) -> u64 {
         20
     }
+    /// Whether the check's oracle looks at the units of results (then the run starts with
+    /// `obs::selfcheck`, which makes sure the harness can read them from this build).
+    fn observes_units(&self) -> bool {
+        true
+    }
     /// Whether a crash/hang of the subject on a case is a violation of this
     /// property (true for all: a crash is never "the exact value").
     fn generate(&self, tier: Tier, sink: &mut dyn FnMut(Case));
